@@ -3,6 +3,7 @@ import Astm.Model.Receiver
 import Astm.Model.Timer
 import Astm.Model.Encodings
 import Astm.Model.TreeWire
+import Astm.Model.Lims
 
 open Astm Astm.Wire
 
@@ -35,6 +36,39 @@ def showTOut (o : TOut) : String :=
   let f := if o.fired.isEmpty then "-" else ",".intercalate (o.fired.map toString)
   let c := match o.out with | none => "- - 0 - 0" | some x => showOut x
   s!"{f} {c}"
+
+open Astm.Lims in
+def parseTransport (t : String) : Option Transport :=
+  if t == "c" then some .connError
+  else if t == "t" then some .timeout
+  else if t.startsWith "s" then
+    let body := (t.drop 1).toString
+    let code := (body.dropEnd 1).toString.toNat?
+    match code with
+    | some c => if body.endsWith "d" then some (.status c true) else if body.endsWith "l" then some (.status c false) else none
+    | none => none
+  else if t.startsWith "x" then ((t.drop 1).toString.toNat?).map .notJson
+  else none
+
+open Astm.Lims in
+def parseAttempt (t : String) : Option Attempt :=
+  match t.splitOn "," with
+  | [vt, vb, ut, ub, pt, pb] => do
+    let vT ← parseTransport vt
+    let uT ← parseTransport ut
+    let pT ← parseTransport pt
+    let vB ← (match vb with | "a" => some VersionBody.absent | "f" => some .falsy | "o" => some .ok | _ => none)
+    let uB ← (match ub with | "n" => some UserBody.noItems | "e" => some .emptyItems | "u" => some .emptyUser
+                             | "f" => some .authFalse | "t" => some .authTrue | "a" => some .authAbsent | _ => none)
+    let pB ← (match pb with | "a" => some PushBody.absent | "f" => some .successFalse | "t" => some .successTrue | _ => none)
+    pure ⟨vT, vB, uT, uB, pT, pB⟩
+  | _ => none
+
+open Astm.Lims in
+def showAct : Act → String
+  | .attempt n calls => s!"A{n}:" ++ ".".intercalate (calls.map fun c => match c with
+      | .getVersion => "V" | .getUser => "U" | .postPush => "P")
+  | .sleep d => s!"S{d}"
 
 def showConn (s : Conn) : String :=
   s!"{if s.inTransfer then 1 else 0} [{",".intercalate (s.chunks.map toHex)}] [{",".intercalate (s.messages.map toHex)}]"
@@ -90,6 +124,15 @@ def handle (toks : List String) : String :=
       "ok " ++ " ; ".intercalate (outs.map showTOut) ++ " | " ++ ",".intercalate live
     | _, _ => "bad-arg"
   | ["default-timeout"] => s!"ok {TIMEOUT}"
+  | "lims" :: rt :: dl :: atts => match rt.toInt?, dl.toNat?, atts.mapM parseAttempt with
+    | some retries, some delay, some as =>
+      match as.getLast? with
+      | none => "bad-arg"
+      | some last =>
+        let script := fun i => (as[i]?).getD last
+        "ok " ++ " ".intercalate ((Astm.Lims.push retries delay script).map showAct)
+    | _, _, _ => "bad-arg"
+  | ["lims-defaults"] => s!"ok {LIMS_RETRIES_DEFAULT} {LIMS_DELAY_DEFAULT} {LIMS_CONSUMER_DEFAULT}"
   | ["dm", en, h] => match encodingOf en, ofHex h with
     | some E, some b => match decodeMessage E b with
       | .ok (seq, recs, cs) => s!"ok {seq} {toHex cs} {showRecords recs}"
